@@ -178,12 +178,11 @@ Qed.
 
 (* ---- the dispatcher ---- *)
 Lemma keyword_search_ok doc invert kw raw x :
-  kw_params_ok raw = true ->
   (exists n, lookup doc (k_here x) = Some n) ->
   ok_or_ype (keyword_search lit re_search nstr doc invert kw raw x).
 Proof.
-  intros Hp [n Hn]. unfold keyword_search, kw_params_ok in *.
-  destruct (keyword_parameters raw) as [params| |]; try discriminate. cbn [bind].
+  intros [n Hn]. unfold keyword_search.
+  destruct (keyword_parameters_total raw) as [[params ->]| ->]; cbn [bind]; [|apply ok_ype_ype].
   unfold node_at. rewrite Hn. cbn [bind].
   destruct kw.
   - apply kw_distinct_ok.
@@ -222,10 +221,9 @@ Qed.
 (* kw_handler_clean: the stream of every keyword segment ends Done or with a
    YAMLPathException, and yields NodeCoords *)
 Theorem ek_kw_handler_res inv kw params v c :
-  kw_params_ok params = true ->
   sres is_coords (ek_kw_handler lit re_search nstr vstr inv kw params v c).
 Proof.
-  intros Hp. unfold ek_kw_handler.
+  unfold ek_kw_handler.
   apply sres_glift.
   - apply keyword_search_ok; auto. unfold ek_kctx, ek_doc, ek_here. cbn. eauto.
   - intros cs _.
@@ -236,10 +234,9 @@ Proof.
 Qed.
 
 Lemma ek_kw_handler_seg inv kw params v c :
-  kw_params_ok params = true ->
   sres coords_or_list (ek_kw_handler lit re_search nstr vstr inv kw params v c).
 Proof.
-  intros Hp. eapply sres_weaken; [|apply ek_kw_handler_res; exact Hp].
+  eapply sres_weaken; [|apply ek_kw_handler_res].
   intros x Hx. unfold coords_or_list. rewrite Hx. reflexivity.
 Qed.
 
